@@ -1,15 +1,21 @@
 import Driver.Util
 import Driver.Ops.Core
+import Driver.Ops.ConstraintGen
 import Driver.Ops.Fs
 import Driver.Ops.Compile
+import Driver.Ops.Denote
+import Driver.Ops.Ssm
 /-! Registry of operation handlers: each model area adds one import above and one entry below. -/
 open Lean
 namespace Pepper.Driver
 
 def handlers : List (String → Json → Option Json) := [
   Core.handle?,
+  ConstraintGen.handle?,
   Fs.handle?,
-  Compile.handle?
+  Compile.handle?,
+  DenoteOps.handle?,
+  Ssm.handle?
 ]
 
 def handle (j : Json) : Json :=
